@@ -1311,7 +1311,15 @@ def check_C20(ctx):
 # =========================================================================== C06 memory contract
 
 def check_C06(ctx):
-    ctx.lean(); ctx.build()
+    ctx.build()
+    # all lengths, not only the window: the functional theorems on the regenerated entry points conclude `callFun ... = .ok ...`, i.e. the run completes without ANY fault
+    # (out of range, misaligned, uninitialised, NULL, shift, division) for every length tuple, and their frame clauses state which bytes may change (TJ.Props.C07Gen lists the corollaries)
+    import taint
+    ok, stats = taint.regenerate(ctx, ('TJ.Props.C07Gen',))
+    ctx.extra_cov['minic'] = {k: stats.get(k) for k in ('functions', 'translated', 'errors', 'build_ok')}
+    if stats.get('errors'): ctx.broken_proofs.append('tools/c2lean.py cannot translate the current sources: ' + '; '.join(stats['errors'][:3]))
+    elif not ok: ctx.broken_proofs.append('TJ.Props.C07Gen (every shape of the AEAD, SIV, hash, HMAC, PBKDF2 and PRNG entry points completes without a fault) no longer checks: ' + re.sub(r'\s+', ' ', stats.get('build_log_tail', ''))[-600:])
+    ctx.lean(extra_modules=['TJ.Props.C07Gen'])
     g = ctx.g; win = list(range(0, 41)); big = [63, 64, 65, 66, 255, 256, 257, 258, 1023, 1024, 1025, 1026]
     lines = []
     step = 1 if ctx.tier == 'thorough' else 1
